@@ -295,6 +295,12 @@ func (ctx *RenderContext) definesVariable(name string) bool {
 		if _, ok := c.context[name]; ok {
 			return true
 		}
+		// a global of the engine is a variable too (GetVariable answers it)
+		if c.env != nil {
+			if _, ok := c.env.globals[name]; ok {
+				return true
+			}
+		}
 	}
 	return false
 }
